@@ -5,8 +5,8 @@ git -C /repo worktree add -q --detach $wt HEAD || exit 2
 git -C $wt apply "$p" || { echo "PATCH DOES NOT APPLY: $p"; git -C /repo worktree remove --force $wt; exit 2; }
 bad=0
 for c in C01 C02 C03 C04 C05 C07 C08 C09 C10 C11 C12 C13 C14 C15 C16 C17 C18 C19 C20; do
-  out=$(VERIF_REPO=$wt /verif/check $c 2>&1 | grep -v "^KNOWN-FINDING")
+  out=$(VERIF_REPO=$wt VERIF_OUT=${wt}_out /verif/check $c 2>&1 | grep -v "^KNOWN-FINDING")
   if ! echo "$out" | grep -q "^OK property=$c"; then bad=$((bad+1)); echo "--- $c on $name"; echo "$out" | cut -c1-500 | tail -6; fi
 done
-git -C /repo worktree remove --force $wt
+git -C /repo worktree remove --force $wt; rm -rf ${wt}_out
 echo "== $name: $bad of 19 checks alarmed"
